@@ -10,23 +10,18 @@ serializer by C05).
 namespace Unsized.C02
 open Common Unsized Unsized.Text Unsized.Machine
 
-/-
-FULL STATEMENT (`bytes_canonical`): after EVERY successful step of any history, `data[0..len) =
-encode s absVal` and `len = size s absVal`. Proved for all `Supported` (node kind, op) pairs, see
-`Unsized.C01.step_refines_partial` for what is missing.
--/
-
-/-- **After every successful step** the buffer is byte-for-byte the serialization of the current
+/-- **After every step** (every op of the op language, any shape / depth; side conditions `CmdOk` =
+headroom and not one of the two known-finding classes) the buffer is byte-for-byte the serialization of the current
 logical value and the reported length is its serialized size. -/
-theorem bytes_canonical_partial (s : Shape) (vs : VState) (ms : State) (inv : Inv s vs ms) (cmd : Cmd)
+theorem bytes_canonical (s : Shape) (vs : VState) (ms : State) (inv : Inv s vs ms) (cmd : Cmd)
     (hcmd : CmdOk s vs ms.mem.orig cmd) :
     (step s ms cmd).1.mem.bytes = encode s (stepV s vs cmd).1.val
     ∧ (step s ms cmd).1.mem.bytes.length = size s (stepV s vs cmd).1.val := by
-  obtain ⟨_, h2, h3, _⟩ := Unsized.C01.step_refines_partial s vs ms inv cmd hcmd
+  obtain ⟨_, h2, h3, _⟩ := Unsized.C01.step_refines s vs ms inv cmd hcmd
   exact ⟨h2, h3⟩
 
 /-- … and after any finite history. -/
-theorem bytes_canonical_history_partial (s : Shape) (v : Val) (hok : s.ok = true) (hwf : WF s v = true)
+theorem bytes_canonical_history (s : Shape) (v : Val) (hok : s.ok = true) (hwf : WF s v = true)
     (hsmall : (encode s v).length + maxIncrease < Shape.u32Lim) (cmds : List Cmd)
     (hh : HistOk s (encode s v).length ⟨v, [[]]⟩ cmds) :
     (runM s (Unsized.C01.load s v) cmds).1.mem.bytes = encode s (runS s ⟨v, [[]]⟩ cmds).1.val
